@@ -24,7 +24,8 @@ KGarb == {"garb"}
 KGarbLay == {"garb", "cmt", "cpp"}
 KInc == {"inc"}
 KSent == {"sent"}
-KStruct == {"del", "ins", "ren"}
+KStruct == {"del", "ins", "ren", "par"}
+KStructCmt == {"del", "ins", "ren", "par", "cmt", "cpp"}
 DirCls == {6, 7}
 KSentCmt == {"sent", "cmt"}
 KMut == {"mut"}
